@@ -1242,7 +1242,7 @@ def cases(tier):
         cap_all, n1 = 9, 5
     else:
         shapes = [(h, w) for h in range(1, 9) for w in range(1, 9) if h * w <= 12]
-        cap_all, n1 = 12, 8
+        cap_all, n1 = 12, 10
     for (H, W) in shapes:
         for flip in (False, True):
             n = H * W
@@ -1256,14 +1256,43 @@ def cases(tier):
         for flip in (False, True):
             out.append(("case_1d", {"N": N, "flip": flip}))
             out.append(("case_derived", {"H": 1, "W": N, "flip": flip, "dims": 1, "masks": "all"}))
-    cap_d = 6 if tier == "quick" else 9
+    cap_d = 6 if tier == "quick" else 12
     for (H, W) in shapes:
         for flip in (False, True):
-            if H * W <= cap_d:
-                out.append(("case_derived", {"H": H, "W": W, "flip": flip, "dims": 2, "masks": "all"}, {"split": 0 if H * W < 8 else 3}))
+            if H * W <= cap_d and (tier == "quick" or (H <= 6 and W <= 6) or H * W <= 9):
+                out.append(("case_derived", {"H": H, "W": W, "flip": flip, "dims": 2, "masks": "all"},
+                            {"split": 0 if H * W < 8 else (3 if H * W <= 9 else 5)}))
             elif H * W <= 12 and H <= 4 and W <= 4:
                 for fam in MASK_FAMILY[1:]:
                     out.append(("case_derived", {"H": H, "W": W, "flip": flip, "dims": 2, "masks": fam}))
+    if tier != "quick":
+        # larger shapes with the mask family (every route and option of case_2d / case_derived / case_tiny)
+        big = [(4, 4), (3, 5), (5, 3), (4, 5), (5, 4), (5, 5), (2, 7), (7, 2), (1, 9), (9, 1), (3, 6), (6, 3), (6, 6), (2, 8), (8, 2)]
+        for (H, W) in big:
+            for flip in (False, True):
+                for fam in MASK_FAMILY:
+                    out.append(("case_2d", {"H": H, "W": W, "flip": flip, "masks": fam, "full": True}))
+                    if fam != "none":
+                        out.append(("case_derived", {"H": H, "W": W, "flip": flip, "dims": 2, "masks": fam}))
+        for flip in (False, True):
+            for (H, W) in ((1, 1), (2, 2), (3, 3), (3, 4), (4, 3), (4, 4), (1, 5), (5, 1)):
+                for fam in ("none", "checker", "corner"):
+                    out.append(("case_tiny", {"H": H, "W": W, "flip": flip, "masks": fam}))
+            for N in (1, 2, 5, 8):
+                out.append(("case_tiny_1d", {"N": N, "flip": flip}))
+            for (H, W) in ((1, 1), (2, 2), (3, 3), (3, 4), (4, 3), (4, 4), (1, 5), (5, 1)):
+                out.append(("case_hdu_index", {"H": H, "W": W, "flip": flip}))
+            for (H, W) in ((4, 3), (4, 4), (3, 5), (5, 5), (6, 6)):
+                out.append(("case_imaging", {"H": H, "W": W, "flip": flip}))
+            for kind in FS_KINDS:
+                for (H, W, H2, W2) in ((3, 3, 1, 1), (1, 1, 3, 4), (4, 1, 1, 4), (3, 4, 4, 3)):
+                    for writer in ("array2d", "kernel2d", "array1d"):
+                        out.append(("case_fs", {"H": H, "W": W, "H2": H2, "W2": W2, "flip": flip, "writer": writer, "kind": kind}))
+                for (H, W, H2, W2) in ((2, 2, 2, 2), (1, 4, 2, 1)):
+                    for writer in ("mask2d", "mask1d"):
+                        out.append(("case_fs", {"H": H, "W": W, "H2": H2, "W2": W2, "flip": flip, "writer": writer, "kind": kind}, {"split": 3}))
+                for (H, W, H2, W2) in ((4, 4, 3, 3), (3, 4, 5, 5)):
+                    out.append(("case_fs", {"H": H, "W": W, "H2": H2, "W2": W2, "flip": flip, "writer": "imaging", "kind": kind}))
     for flip in (False, True):
         for (H, W, fam) in ((2, 3, "checker"), (3, 2, "none"), (1, 3, "corner"), (3, 1, "none")) + (((3, 4, "checker"),) if tier != "quick" else ()):
             out.append(("case_tiny", {"H": H, "W": W, "flip": flip, "masks": fam}))
